@@ -602,6 +602,35 @@ Fixpoint no_scope (e : expr) : bool :=
   | EWithinReference _ _ | EWithinVisibility _ _ => false
   end.
 
+(** Decidable forms of the scoping hypotheses of the soundness theorem (Proofs/C19.v
+    [wfs], [pre_ok]): [n] is the number of index positions. *)
+Definition inclb (a b : list nat) : bool := forallb (fun x => memn x b) a.
+Definition has_pos (n : nat) (l : list nat) : bool := existsb (fun v => Nat.ltb v n) l.
+Fixpoint wfsb (n : nat) (r : list nat) (e : expr) : bool :=
+  match e with
+  | ENone | EAll | EVisibleHeads | EVisibleHeadsOrReferenced | ERoot | EForks | EFilter _ => true
+  | ECommits l => inclb l r
+  | EAncestors x _ _ | EDescendants x _ | EHeads x | ERoots x | EForkPoint x | EMergePoint x
+  | EBisect x | ELatest x _ | EAsFilter x | EPresent x | ENotIn x => wfsb n r x
+  | ERange a b _ _ | EDagRange a b | EReachable a b | ECoalesce a b | EUnion a b
+  | EIntersection a b | EDifference a b => wfsb n r a && wfsb n r b
+  | EHeadsRange a b _ f => wfsb n r a && wfsb n r b && wfsb n r f
+  | EWithinReference x cs => inclb cs r && wfsb n cs x
+  | EWithinVisibility x vh => inclb vh r && has_pos n vh && wfsb n r x
+  end.
+Fixpoint pre_okb (n : nat) (e : expr) : bool :=
+  match e with
+  | ENone | EAll | EVisibleHeads | EVisibleHeadsOrReferenced | ERoot | EForks | EFilter _
+  | ECommits _ => true
+  | EAncestors x _ _ | EDescendants x _ | EHeads x | ERoots x | EForkPoint x | EMergePoint x
+  | EBisect x | ELatest x _ | EAsFilter x | EPresent x | ENotIn x => pre_okb n x
+  | ERange a b _ _ | EDagRange a b | EReachable a b | ECoalesce a b | EUnion a b
+  | EIntersection a b | EDifference a b => pre_okb n a && pre_okb n b
+  | EHeadsRange a b _ f => pre_okb n a && pre_okb n b && pre_okb n f
+  | EWithinReference x cs => wfsb n cs x
+  | EWithinVisibility x vh => has_pos n vh && pre_okb n x
+  end.
+
 (** Every commit except the root (position 0) has a parent. *)
 Definition rootedb (G : graph) : bool :=
   forallb (fun x => Nat.eqb x 0 || negb (match parents G x with [] => true | _ => false end))
@@ -712,7 +741,9 @@ Definition check_case (c : case) : N :=
   let n := length (w_graph W) in
   let x := case_ctx c in
   let o := optimize (c_expr c) in
+  (* the hypotheses of C19_optimize_sound hold on this case, and position = creation order *)
   let c1 := wf_graphb (w_graph W) && rootedb (w_graph W)
+            && has_pos n (x_vis x) && pre_okb n (c_expr c)
             && lnat_eqb (P (c_order c)) (rev (seq 0 n)) in
   let c2 := match c_opt c with Some o' => expr_eqb o o' | None => false end in
   let c3 := olist_eqb (eval W x o) (c_res_opt c) in
